@@ -114,11 +114,18 @@ Definition apply_entry (te : tyenv) (d : pdesc) (e : entry) : sprov :=
     (e_memoized e) (d_required d || e_required e) (e_synthetic e)
     (d_shun d) (d_consumptionOptional d) (d_mustConsume d).
 
-Fixpoint classify_in (te : tyenv) (reg : list entry) (d : pdesc) (cc : charContext) : option sprov :=
+Fixpoint classify_reg (te : tyenv) (reg : list entry) (d : pdesc) (cc : charContext) : option sprov :=
   match reg with
   | [] => None
   | e :: r => if forallb (pred_holds te d cc) (e_tests e) then Some (apply_entry te d e)
-              else classify_in te r d cc
+              else classify_reg te r d cc
+  end.
+
+(* characterizeFuncDetails: a nil function is rejected before the table is consulted *)
+Definition classify_in (te : tyenv) (reg : list entry) (d : pdesc) (cc : charContext) : option sprov :=
+  match d_shape d with
+  | ShNilFn _ _ => None
+  | _ => classify_reg te reg d cc
   end.
 
 Definition characterizeFunc te d cc := classify_in te handlerRegistry d cc.
@@ -175,6 +182,21 @@ Fixpoint char_loop (te : tyenv) (l : list pdesc) (nonStatic : list nat)
     end
   end.
 
+(* what a Reorder'd per-invocation provider outputs is non-static wherever it is listed *)
+Fixpoint pretaint (te : tyenv) (l : list pdesc) : list nat :=
+  match l with
+  | [] => []
+  | d :: r =>
+    let isLast := match r with [] => true | _ => false end in
+    (if d_reorder d then
+       match characterizeFunc te d (mkCC isLast true) with
+       | Some s => if group_eqb (s_group s) GRun then fl (f_out (s_flows s)) else []
+       | None => []
+       end
+     else []) ++ pretaint te r
+  end.
+
 Definition characterize_and_flatten (te : tyenv) (l : list pdesc) (nonStatic : list nat)
   : res (list sprov * list sprov) :=
-  char_loop te (reorder_nonfinal l) nonStatic [] [].
+  let l' := reorder_nonfinal l in
+  char_loop te l' (pretaint te l' ++ nonStatic) [] [].
